@@ -85,3 +85,57 @@ func (in *Interp) EvalExpr(info *types.Info, e ast.Expr) (Value, error) {
 
 // KeyString is the canonical map key of a value.
 func KeyString(v Value) string { return keyString(v) }
+
+// InstallTimeStubs models the parts of package time the analysed code uses on TimeVal.
+func (in *Interp) InstallTimeStubs() {
+	tv := func(v Value) (TimeVal, error) {
+		t, ok := v.(TimeVal)
+		if !ok {
+			return TimeVal{}, &Unsupported{What: "time method on non-time value"}
+		}
+		return t, nil
+	}
+	in.Stubs["time.Time.Add"] = func(in *Interp, recv Value, args []Value) ([]Value, error) {
+		t, err := tv(recv)
+		if err != nil {
+			return nil, err
+		}
+		d, _ := args[0].(int64)
+		return []Value{TimeVal{t.NS + d}}, nil
+	}
+	in.Stubs["time.Time.UnixNano"] = func(in *Interp, recv Value, args []Value) ([]Value, error) {
+		t, err := tv(recv)
+		if err != nil {
+			return nil, err
+		}
+		return []Value{t.NS}, nil
+	}
+	in.Stubs["time.Time.UTC"] = func(in *Interp, recv Value, args []Value) ([]Value, error) {
+		return []Value{recv}, nil
+	}
+	in.Stubs["time.Unix"] = func(in *Interp, _ Value, args []Value) ([]Value, error) {
+		s, _ := args[0].(int64)
+		n, _ := args[1].(int64)
+		return []Value{TimeVal{s*1000000000 + n}}, nil
+	}
+	in.Stubs["time.Time.IsZero"] = func(in *Interp, recv Value, args []Value) ([]Value, error) {
+		t, err := tv(recv)
+		return []Value{t.NS == 0}, err
+	}
+	cmp := func(f func(a, b int64) bool) func(*Interp, Value, []Value) ([]Value, error) {
+		return func(in *Interp, recv Value, args []Value) ([]Value, error) {
+			a, err := tv(recv)
+			if err != nil {
+				return nil, err
+			}
+			b, err := tv(args[0])
+			if err != nil {
+				return nil, err
+			}
+			return []Value{f(a.NS, b.NS)}, nil
+		}
+	}
+	in.Stubs["time.Time.Before"] = cmp(func(a, b int64) bool { return a < b })
+	in.Stubs["time.Time.After"] = cmp(func(a, b int64) bool { return a > b })
+	in.Stubs["time.Time.Equal"] = cmp(func(a, b int64) bool { return a == b })
+}
